@@ -86,6 +86,13 @@ CHECKS.update({
                     "fresh objects per configuration; all five history arrays and the return value are compared byte-wise. The RL + "
                     "saving-folder crash is a listed known finding; everything else must agree.",
             "note": "determinism of sklearn/xgboost/scipy on this machine is assumed; 3 variants per configuration."},
+    "C04": {"category": "exploration", "technique": PBT + " of operation histories (new run in fresh/used folder, calibrate, checkpoint, restore) with a save->restore round-trip oracle over a canonical snapshot",
+            "text": "After every operation that writes a checkpoint the folder is restored and a recursive canonical snapshot "
+                    "(configuration, counters, five arrays bit-for-bit, generator state, space, scheduler, all sampler attributes, "
+                    "loss, id table) is compared with the live object; scripted losses carry arbitrary doubles through the CSV path; "
+                    "SQLite save/load tuples compared field by field; RL scheduler kind exercised (listed known finding). "
+                    "Rediscovered and fixed: CSV float parsing, stale HDF5 series, empty-history dtypes, unsaved last batch, id table.",
+            "note": "fitted third-party estimators compared by class only; NaN payloads ignored."},
 })
 NOT_APPLICABLE = {p: "check not built yet in this session (design in DESIGN.md section 3); will be claimed once its harness exists"
                   for p in ALL if p not in CHECKS}
